@@ -167,7 +167,10 @@ def term_step(c, harness, only=None, launched=None):
     c.cov["termination"] = dict(wall_s=round(term_wall, 1), families_not_run_after_two_stalls=[l[1] for l in lines if l and l[0] == "SKIP"], texts=len(tl), calls=int(done[0][2]) if done else None, slowest_call_ms=slowest, bound_ms=bound_ms,
                                 families={f: sorted(v) for f, v in fams.items()}, entry_points=TERM_ENTRY_NAMES,
                                 rule="every family member of every size: the valid text and 12 invalid twins (a foreign character, a stray parenthesis, a dangling "
-                                "connective, a removed token - at the start, in the middle, at the end) through every entry point, each call bounded by "
+                                "connective, a removed token - at the start, in the middle, at the end; for a text with a dotted identifier also 5 twins with ONE path element "
+                                "replaced: an unknown name as first / middle / last element, a scalar symbol as first / middle element) through every entry point; the "
+                                "cyclic-path families are dotted identifiers of 2..40 (thorough 128) elements that walk a cycle of the store link graph (self link by fk / fk set, "
+                                "A -> B -> A, A -> B -> C -> A) as comparison operand, set-function argument, sub-query set expression, sort key; each call bounded by "
                                 "max(bound_ms, 100 x the time of the valid twin of the same size through the same entry point)")
     if only:
         for l in lines:
@@ -192,7 +195,8 @@ def term_step(c, harness, only=None, launched=None):
         c.violation("C10:parse-does-not-terminate",
                     "%s does not answer within %.0f s on a text of %d characters%s: %r (family %s of size %d%s). %s. "
                     "The same entry point answered the smaller members of the family in: %s"
-                    % (TERM_ENTRY_NAMES[k], bound / 1000, len(text), "" if variant in ("valid", "noise") else " that is not a sentence of the grammar",
+                    % (TERM_ENTRY_NAMES[k], bound / 1000, len(text),
+                       "" if variant in ("valid", "noise") else (" in which one element of a dotted identifier does not resolve" if variant.startswith("path-") else " that is not a sentence of the grammar"),
                        text if len(text) <= 400 else text[:400] + "...", fam, n,
                        "" if variant in ("valid", "noise") else ", twin `%s`" % variant,
                        ("The valid text of the same size %r is answered in %.3f ms" % (valid if len(valid) <= 200 else valid[:200] + "...", valid_ms))
@@ -456,7 +460,10 @@ def main(argv):
                      "bolt* = the sentence matrix with x renamed to every kind of symbol of real boltz stores (scalars of every type, prefixed field, fk, string/int/float/bool/datetime sets, fk sets, "
                      "dotted chains through fk and fk-set symbols, map elements, unknown names), as top-level filter, as inner filter of sub-queries over the linked stores, wrapped in not/and/or/sort clauses, "
                      "and token-level mutations of those; typing `store`: parsed against the real store and evaluated through QueryIds / QueryIdsC / IterateIds(+Seek) / IterateValidIds / QueryWithCursorC "
-                     "(row-id list with ids of missing entities, related-entity cursors) over a bolt file with the entity profiles full / NEVER WRITTEN / nil+empty / scalars only / sets only / dangling references / mistyped "
+                     "(row-id list with ids of missing entities, related-entity cursors) over a bolt file with the entity profiles full / NEVER WRITTEN / nil+empty / scalars only / sets only / dangling references / mistyped / "
+                     "ONE STORAGE TYPE (m9-<T>, s9-<T>: every field, set entry, fk / fk-set entry, prefix field and map element - flat and nested - holds a well-formed value of storage type T, "
+                     "T in int32 int64 float64 bool time string nil, so that every conversion of the evaluator - string / numeric / datetime / bool operators over any-typed symbols and map elements, "
+                     "sort comparators, linked ids - meets every storage type, in the main store and through fk / fk-set links) "
                      "and over the roots all / orphan (linked stores never created) / hollow (no entity) / void (no bucket); a panic is minimised to the single entity profile that is needed. "
                      "lit = literal-taking constructs (comparison operands, between bounds, in-lists of 1..4 elements, skip / limit of the query and of sub-queries, operands inside and behind "
                      "sub-queries, under and / or / not) x every literal position x NUMBER tokens beyond float64 / int64 (1e999, -1e400, 1e309, 310- / 401- / 1260-digit integers, exponents of 20 digits) and "
@@ -471,7 +478,7 @@ def main(argv):
                      "non-characters, look-alikes of ASCII under case mapping / NFKC) + 11 byte sequences that are not UTF-8 + 12 mixtures with grammar white space: alone, as first / last characters "
                      "of every short sentence (bare and next to grammar white space), behind the first token, in place of a blank, around both ends / middle and last token boundary (every 4th "
                      "sentence), one character of a sentence replaced by its look-alike; the Coq table blank_like_foreign is compared with the population (case line W). "
-                     "TERMINATION (coverage key `termination`): 25 families of growing size x (valid + 12 invalid twins) x 11 entry points, each call under max(5 s, 100 x valid twin). "
+                     "TERMINATION (coverage key `termination`): 32 families of growing size (7 of them dotted identifiers of 2..40 elements over cycles of the store link graph) x (valid + 12 invalid twins; + 5 twins with one path element replaced) x 11 entry points, each call under max(5 s, 100 x valid twin). "
                      "ENTRY POINTS: every filter of every stream through zitiql.Parse, ParseWithDebug(false), ParseWithDebug(true), Parse after the debug run, Parse with the ast listener, "
                      "ast.Parse + QueryIds(string) of a boltz store, ast.Parse + QueryEntities(string) of an objectz store: accept / reject / panic per entry point; the syntax-only ones must be equal, "
                      "a typed one never accepts what the one below it refuses, none accepts a lexer error or a non-sentence. "
